@@ -28,7 +28,7 @@ def plan(tier, seed):
     shapes = []
     for n in range(1, 6):
         shapes += list(itertools.product(("abs", "pct", None), repeat=n))
-    reps = 60 if tier == "quick" else 1200
+    reps = 160 if tier == "quick" else 1200
     per = 40
     cases = []
     for i in range(0, len(shapes), per):
@@ -46,9 +46,15 @@ def build(shape, rng, variant, m0_variant):
     M = float(rng.choice([1000, 5000, 12345, 60000, 5e7, 777.5]))
     cuts = sorted(rng.uniform(0.02, 0.98) for _ in range(n - 1))
     fr = [b - a for a, b in zip([0.0] + cuts, cuts + [1.0])]
-    # percentages with at most 3 decimals that sum to exactly 100
-    pct = [round(100 * f, 3) for f in fr]
-    pct[-1] = round(100.0 - sum(pct[:-1]), 3)
+    if rng.random() < 0.3:
+        # values that use the whole mantissa (small and large system masses): nothing may be rounded on the way through print -> re-parse
+        M = rng.uniform(1.0, 60.0) if rng.random() < 0.6 else rng.uniform(100.0, 1e5)
+        pct = [100 * f for f in fr]
+        pct[-1] = 100.0 - sum(pct[:-1])
+    else:
+        # percentages with at most 3 decimals that sum to exactly 100
+        pct = [round(100 * f, 3) for f in fr]
+        pct[-1] = round(100.0 - sum(pct[:-1]), 3)
     if min(pct) <= 0.01:
         return None
     specs = []
